@@ -36,6 +36,8 @@ structure WsAcc where
   branches : List String := []
   -- oracle state, from the observations only
   stickyFrom : Option Nat := none      -- a listener of the current session ended with an error
+  noSession : Bool := true             -- no session can exist: start, after Disconnect, after a failed Reconnect
+  dials : Nat := 0                     -- successful dials so far, as the harness counted them
 
 def opWSEQ (args obs : List String) : Option DecOut :=
   if args.length != obs.length then
@@ -54,6 +56,7 @@ def opWSEQ (args obs : List String) : Option DecOut :=
         let go := s!"{res};{goSnap}"
         let corr := if want == go then [] else [s!"{opName}: model=({want}) go=({go})"]
         -- ---- oracles on what the real client did ----
+        let goDials : Nat := (match (xs.filterMap atomStr).reverse with | n :: _ => n.toNat? | [] => none).getD acc.dials
         let fPanic := if res == "panic" then [s!"C17 panic in {opName}"] else []
         -- frames written during this op, over all connections: "<type>:<hex>" items
         let newFrames : List String := (xs.filterMap atomStr).filter (fun a => a.contains '|') |>.map (fun a => (a.splitOn "|").headD "")
@@ -85,13 +88,23 @@ def opWSEQ (args obs : List String) : Option DecOut :=
           (if isSend && res == "ok" && acc.st.session.isNone then ["C17 send without a session succeeded"] else []) ++
           (if opName == "CON" && acc.st.session.isSome && (res == "ok" || st'.conns.length != acc.st.conns.length) then
              ["C17 Connect on an active session did not fail without dialing"] else []) ++
-          (if opName == "REC" && res != "ok" && st'.session.isSome then [] else [])
+          -- a failed Reconnect (and a Disconnect) leave no session behind: the next Connect has to dial
+          (if opName == "CON" && acc.noSession && (match op with | .connect true _ => true | _ => false) && goDials == acc.dials then
+             ["C17 no session can exist (start / Disconnect / failed Reconnect) but Connect was refused without dialing: a session was left behind"] else [])
+        let noSession' : Bool :=
+          match opName, res with
+          | "CON", "ok" => false
+          | "REC", "ok" => false
+          | "REC", _ => true
+          | "DIS", _ => true
+          | _, _ => acc.noSession
         let sticky' : Option Nat :=
           match opName, res with
           | "LEND", "ended" => (match opT with | .node _ [.atom "norm"] => acc.stickyFrom | _ => some 0)
           | "REC", "ok" => none
           | _, _ => acc.stickyFrom
         { acc with st := st', corr := acc.corr ++ corr, fails := acc.fails ++ fPanic ++ f17, stickyFrom := sticky',
+                   noSession := noSession', dials := goDials,
                    branches := acc.branches ++ [s!"{opName}.{res}"] }
     | _, _ => { acc with corr := acc.corr ++ [s!"unparsable observation for {p.1}"] }
   let acc := (args.zip obs).foldl step1 {}
@@ -123,6 +136,7 @@ def opWC (args obs : List String) : Option DecOut :=
     let maxw := ((field "maxw=" obs).bind String.toNat?).getD 99
     let maxr := ((field "maxr=" obs).bind String.toNat?).getD 99
     let maxms := ((field "maxms=" obs).bind String.toNat?).getD 99999
+    let leak := ((field "leak=" obs).bind String.toNat?).getD 99
     -- ---- oracle: the statement of C15 / C16 on what the real connection did ----
     let proceeding := res.filter (· ≠ "multiple")
     let f15 :=
@@ -132,28 +146,37 @@ def opWC (args obs : List String) : Option DecOut :=
       (if closed && !reverted then [] else ["C15 Closed() is false after closing or reverted to false"]) ++
       (if maxms ≤ 150 + 400 then [] else [s!"C15 a close call took {maxms} ms with a 150 ms close deadline"]) ++
       (if lres == "hang" then ["C15 Listen did not return after the connection was closed"] else []) ++
+      (if leak == 0 then [] else [s!"C15 {leak} reader goroutine(s) of the library still alive after the connection was closed and every call returned"]) ++
+      (if scen == "listeners" && ((extra.splitOn "+").filter (· ≠ "already")).length > 1 then
+         ["C16 more than one concurrent Listen call was admitted"] else []) ++
       (if (extra.splitOn "hang").length > 1 then ["C15 a later Listen call did not return"] else [])
     let f16 :=
       (if maxw ≤ 1 then [] else [s!"C16 {maxw} goroutines inside the underlying WriteMessage at once"]) ++
       (if maxr ≤ 1 then [] else [s!"C16 {maxr} goroutines inside the underlying ReadMessage at once"])
     -- ---- expectation derived from the model (deterministic parts of the scenario) ----
+    let listen := listen || scen == "listeners" || scen == "handler"
     let internalWins := listen && (peer == "first1000" || peer == "first1001" || peer == "sever")
     let winner :=
       if peer == "echo" then "nil"
       else if peer == "silent" then (if listen then "deadline" else "nil")
       else if peer == "writefail" then "other"
       else "nil"
-    let nClosers := if scen == "writers" then 2 else if scen == "relisten" then 1 else n
+    let nClosers := if scen == "writers" then 2 else if scen == "relisten" || scen == "listeners" || scen == "handler" then 1 else n
     let wantRes : List String :=
       if scen == "relisten" then [if peer == "silent" then "deadline" else "nil"]
       else if internalWins then List.replicate nClosers "multiple"
       else (List.replicate (nClosers - 1) "multiple") ++ [winner]
     let wantFrames := if peer == "writefail" then 0 else if peer == "sever" && listen then 0 else 1
     let wantListen :=
-      if scen == "relisten" then (if n == 0 then "nil" else "-")
+      if scen == "listeners" then "-"
+      else if scen == "handler" then (if n ≥ 1 then "other" else "nil")
+      else if scen == "relisten" then (if n == 0 then "nil" else "-")
       else if !listen then "-"
       else if peer == "first1001" then "close1001" else if peer == "sever" then "neterr" else "nil"
-    let wantExtra := if scen != "relisten" then "" else if n == 0 then "already" else "+".intercalate (List.replicate (n + 1) "nil")
+    let wantExtra :=
+      if scen == "listeners" then "+".intercalate (List.replicate (n - 1) "already" ++ ["nil"])
+      else if scen == "handler" then s!"handled{n}"
+      else if scen != "relisten" then "" else if n == 0 then "already" else "+".intercalate (List.replicate (n + 1) "nil")
     let sortS (l : List String) := l.toArray.qsort (· < ·) |>.toList
     let corr :=
       if sortS res == sortS wantRes && frames == wantFrames && lres == wantListen && extra == wantExtra then none
